@@ -1406,8 +1406,14 @@ pub fn exec_op(env: &mut Env, op: &Op, bag: &mut Vec<Handle>, fr: &mut Frame) {
                 _ => 0,
             };
             hx(|h| {
-                debug_assert_eq!(h.arefs.len(), aid as usize);
-                h.arefs.push(Some(weak));
+                while h.arefs.len() < aid as usize {
+                    h.arefs.push(None);
+                }
+                if h.arefs.len() == aid as usize {
+                    h.arefs.push(Some(weak));
+                } else {
+                    h.arefs[aid as usize] = Some(weak);
+                }
                 h.live_handles += own.is_some() as i64;
             });
             super::logchk::actor_created(aid, log_id, parent_id);
